@@ -96,6 +96,10 @@ theorem C07_unreachable_fails (c : Cond) (k : TaskKey) (ev : Status) (s' : Statu
 theorem C07_check_statuses : wfUnreachCheck .succeeded = true ∧ wfUnreachCheck .failed = true ∧
     wfUnreachCheck .canceled = false := by decide
 
+/-- a workflow completed by a status request (a paused workflow with nothing left is resumed)
+    goes through the same check -/
+theorem C07_resume_checks_unreachable : wfReqUnreachCheck .succeeded = true := by decide
+
 /-! ### C19: the barrier computation does not depend on the order in which the set of inbound
     task names is iterated -/
 
